@@ -1331,7 +1331,24 @@ def _c_cfg(cfg):
     return f"(mkCfg {lex} {spans} {syn} {kw})"
 
 
+def _until_hang(case, obs):
+    """the implementation did not return from one parse() call within IMPL_TIMEOUT (an exponential roll-back; termination is
+    C03's subject): the calls after it were not made, so the comparison covers the calls up to and including that one (the
+    model must say Hang there: its iteration budget is used up)"""
+    if "hang_at" not in obs:
+        return case, obs
+    if _is_session(case):
+        h = next((i for i, r in enumerate(obs["res"]) if r == ["err", "Hang"]), None)
+        if h is None:
+            return case, obs
+        return (dict(case, calls=case["calls"][:h + 1], second=None, change=None),
+                dict(obs, res=obs["res"][:h + 1], second=None, res_after=[], res_after2=[], third=None))
+    h = obs["hang_at"]
+    return dict(case, inputs=case["inputs"][:h + 1]), dict(obs, res=obs["res"][:h + 1])
+
+
 def _coq_session(case, obs):
+    case, obs = _until_hang(case, obs)
     g = case["g"]
     cfg = case["cfg"]
     ug = SX.clist(
@@ -1661,6 +1678,7 @@ def coq_case(case, obs):
     if _is_session(case):
         return _coq_session(case, obs)
     # "Grammar ..." -> "Old (GrammarV <diag> ...)"
+    case, obs = _until_hang(case, obs)
     base = L.coq_case(case, obs)
     assert base.startswith("Grammar ")
     return "Old (GrammarV " + SX.cbool(_diag(case)) + base[len("Grammar"):] + ")"
@@ -1671,6 +1689,7 @@ def expected_sx(case, obs):
         return _expected_session(case, obs)
     if obs["ctor"][0] == "err":
         return SX.dumps(SX.err(obs["ctor"][1]))
+    case, obs = _until_hang(case, obs)
     res = []
     for r in obs["res"]:
         res.append(SX.ok(L.tree_sx(r[1])) if r[0] == "ok" else SX.err(r[1]))
